@@ -129,7 +129,8 @@ def load_registered_codemods(ep_filter: Optional[Callable[[EntryPoint], bool]] =
     registry = CodemodRegistry()
     logger.debug("loading registered codemod collections")
 
-    for entry_point in set(entry_points().select(group="codemods")):
+    # de-duplicate but keep a deterministic order (a set would be ordered by hash seed)
+    for entry_point in dict.fromkeys(entry_points().select(group="codemods")):
         if ep_filter and not ep_filter(entry_point):
             logger.debug(
                 '- skipping codemod collection "%s" from "%s as requested"',
